@@ -1,16 +1,314 @@
-import TonicModel.Model.Compression
-import TonicModel.Spec.Compression
-namespace C05
-open CompObs Compression
+import TonicModel.Lemmas.Compression
+/-
+C05 — Compression is used only as negotiated and configured.
+Property theorems only; helper lemmas live in `Lemmas/Compression`.
 
-/-- The code as found at the pinned commit picks an encoding the server was not configured to
-send: send = {gzip}, `grpc-accept-encoding: zstd,gzip` ⇒ zstd (DESIGN §5.4). -/
+Reading guide.  `Compression.*` is the model of the code (after
+`fixes/fix-C05-accept-encoding-enabled.patch`; the code as found is `Compression.Orig.*`);
+`Spec.Compression.*` is the oracle.  `configure direct cs` is the 3-slot array a server ends up
+with after the configuration calls `cs` (either route), `enabledAfter cs` the naive set those
+calls denote.  Every theorem quantifies over all call sequences, all header byte strings, all
+frame lists, all four call shapes and all handler scripts; none has a size bound.
+-/
+namespace C05
+open CompObs Compression Spec.Compression
+
+/-! ### what "configured" and "offers" mean -/
+
+/-- Whatever the order, repetition and `pop`s of the configuration calls, and on both routes
+(builder calls on `server::Grpc`, or a generated server's stored set copied by
+`apply_compression_config`), an encoding is enabled iff the calls enabled it: the 3-slot array
+never overflows and never drops or invents an entry. -/
+theorem C05_configuration (direct : Bool) (cs : List Call) (e : Enc) :
+    isEnabled (configure direct cs) e = (enabledAfter cs).contains e :=
+  configure_agree direct cs e
+
+/-- The executable test used by the oracle (`offersB`: split on commas, strip SP/HTAB, compare)
+decides exactly the declarative reading of "the header value offers `e`". -/
+theorem C05_offers_decidable (v : Bytes) (e : Enc) : offersB v e = true ↔ Offers v e :=
+  offersB_iff v e
+
+/-! ### sentence 1: the server's choice -/
+
+/-- A server compresses only with an encoding it was configured to send and that the request's
+`grpc-accept-encoding` offers — for every state of the enabled set and every list of header
+values (any bytes). -/
+theorem C05_server_choice (s : Slots) (vals : List Bytes) (e : Enc)
+    (h : fromAcceptEncodingHeader vals s = some e) :
+    isEnabled s e = true ∧ ∃ v rest, vals = v :: rest ∧ Offers v e := by
+  obtain ⟨hen, v, rest, hv, ho⟩ := fromAccept_some vals s e h
+  exact ⟨hen, v, rest, hv, (offersB_iff v e).mp ho⟩
+
+/-- … and it is the client's first listed encoding among those the server may send (so a
+mutually acceptable encoding is never passed over), for every visible-ASCII value. -/
+theorem C05_server_choice_first_mutual (direct : Bool) (cs : List Call) (v : Bytes)
+    (rest : List Bytes) (hv : v.all Ascii.isVisible = true) :
+    fromAcceptEncodingHeader (v :: rest) (configure direct cs) = firstMutual (enabledAfter cs) v :=
+  fromAccept_spec _ _ (configure_agree direct cs) v rest hv
+
+/-- Completeness: if some configured encoding is offered, the server does compress. -/
+theorem C05_server_choice_complete (direct : Bool) (cs : List Call) (v : Bytes) (rest : List Bytes)
+    (e : Enc) (hv : v.all Ascii.isVisible = true) (he : (enabledAfter cs).contains e = true)
+    (ho : Offers v e) : fromAcceptEncodingHeader (v :: rest) (configure direct cs) ≠ none := by
+  rw [C05_server_choice_first_mutual direct cs v rest hv]
+  intro hn
+  unfold firstMutual at hn
+  rw [List.findSome?_eq_none_iff] at hn
+  have hmem : name e ∈ tokens v := by
+    have := (offersB_iff v e).mpr ho
+    simpa [offersB] using this
+  have := hn _ hmem
+  rw [← asStr_eq_name, nameOf_asStr] at this
+  have hm : e ∈ enabledAfter cs := by simpa using he
+  simp [Option.filter, hm] at this
+
+/-- A value that is not visible ASCII offers nothing: identity is sent. -/
+theorem C05_server_choice_non_ascii (s : Slots) (v : Bytes) (rest : List Bytes)
+    (hv : v.all Ascii.isVisible = false) : fromAcceptEncodingHeader (v :: rest) s = none := by
+  unfold fromAcceptEncodingHeader toStrOk
+  simp [hv]
+
+/-- The code as found at the pinned commit violates sentence 1: send = {gzip},
+`grpc-accept-encoding: zstd,gzip` ⇒ zstd is chosen (DESIGN §5.4).  Replayed on the real code by
+the first corpus case of `harness/src/c05.rs`. -/
 theorem C05_server_choice_fails_before_fix :
     ¬ (∀ (s : Slots) (vals : List Bytes) (e : Enc),
         Orig.fromAcceptEncodingHeader vals s = some e → isEnabled s e = true) := by
   intro h
-  have := h (runCalls [.en .gzip]) [zstdName ++ [44] ++ gzipName] .zstd (by decide)
+  have := h (configure true [.en .gzip]) [zstdName ++ [44] ++ gzipName] .zstd (by decide)
   revert this
   decide
+
+/-! ### the server as observed (all shapes, all requests, all handler scripts) -/
+
+/-- Observable form of sentence 1: every `grpc-encoding` the response carries names an encoding
+configured for sending and offered by the request; there is at most one.  (Guard: the handler
+does not itself put `grpc-encoding` into the response metadata — see
+`C05_server_choice_fails_with_forged_metadata`.) -/
+theorem C05_server_response_choice (direct : Bool) (acc snd : List Call) (req : SrvReq)
+    (h : Handler) (hmd : h.forges = false) :
+    srvChoice (enabledAfter snd) req
+      (serve (configure direct acc) (configure direct snd) req h) = true :=
+  serve_choice _ _ _ (configure_agree direct snd) req h hmd
+
+/-- "announces it in grpc-encoding exactly when one is chosen": a response that carries
+messages announces precisely the chosen encoding (nothing if none was chosen). -/
+theorem C05_server_announces_iff_chosen (direct : Bool) (acc snd : List Call) (req : SrvReq)
+    (h : Handler) (hmd : h.forges = false) :
+    let o := serve (configure direct acc) (configure direct snd) req h
+    o.frames ≠ [] →
+      o.enc = ((fromAcceptEncodingHeader req.accVals (configure direct snd)).map name).toList := by
+  intro o hne
+  have key : ∀ saw, (respond req.shape (fromAcceptEncodingHeader req.accVals (configure direct snd)) h saw).enc
+      = ((fromAcceptEncodingHeader req.accVals (configure direct snd)).map name).toList ∨
+      (respond req.shape (fromAcceptEncodingHeader req.accVals (configure direct snd)) h saw).frames = [] := by
+    intro saw
+    cases h with
+    | fail c => right; rfl
+    | reply n d md =>
+      have : md = [] := by simpa [Handler.forges] using hmd
+      subst this
+      left
+      cases fromAcceptEncodingHeader req.accVals (configure direct snd) <;>
+        simp [respond, asStr_eq_name]
+  rcases serve_cases (configure direct acc) (configure direct snd) req h with ⟨v, _, ho⟩ |
+    ⟨neg, c, k, _, _, _, ho⟩ | ⟨neg, c, k, _, _, _, ho⟩ | ⟨neg, f, _, _, _, ho⟩ | ⟨neg, _, _, _, ho⟩
+  · exact absurd (by rw [show o = _ from ho]; rfl) hne
+  · exact absurd (by rw [show o = _ from ho]; rfl) hne
+  · exact absurd (by rw [show o = _ from ho]; rfl) hne
+  · rcases key [.ok f] with hk | hk
+    · rw [show o = _ from ho]; exact hk
+    · exact absurd (by rw [show o = _ from ho]; exact hk) hne
+  · rcases key (decodeAll neg req.frames) with hk | hk
+    · rw [show o = _ from ho]; exact hk
+    · exact absurd (by rw [show o = _ from ho]; exact hk) hne
+
+/-- "… and otherwise sends identity": every message of every response is either flag 0 with the
+message bytes themselves, or flag 1 compressed with exactly the announced encoding. -/
+theorem C05_server_compresses_only_as_announced (direct : Bool) (acc snd : List Call)
+    (req : SrvReq) (h : Handler) :
+    srvAnnounce (serve (configure direct acc) (configure direct snd) req h) = true :=
+  serve_announce _ _ req h
+
+/-! ### sentence 2: refusing what was not enabled for receiving; flag without encoding -/
+
+/-- A request whose `grpc-encoding` is not enabled for receiving is refused with UNIMPLEMENTED
+before the handler runs, answering with a `grpc-accept-encoding` that lists precisely the enabled
+encodings; no other request is refused on those grounds. -/
+theorem C05_reject_unsupported (direct : Bool) (acc snd : List Call) (req : SrvReq) (h : Handler) :
+    srvReject (enabledAfter acc) req
+      (serve (configure direct acc) (configure direct snd) req h) = true :=
+  serve_reject _ _ _ (configure_agree direct acc) req h
+
+/-- What `recv … = refuse` says: there is a `grpc-encoding` value, it is not `identity`, and it
+is not the name of an enabled encoding. -/
+theorem C05_refuse_meaning (enabled : List Enc) (vals : List Bytes) :
+    recv enabled vals = .refuse ↔
+      ∃ v rest, vals = v :: rest ∧ v ≠ identity ∧ ∀ e, enabled.contains e = true → v ≠ name e := by
+  cases vals with
+  | nil => simp [recv]
+  | cons v rest =>
+    have i1 : name .gzip ≠ identity := by decide
+    have i2 : name .deflate ≠ identity := by decide
+    have i3 : name .zstd ≠ identity := by decide
+    have n1 : name .deflate ≠ name .gzip := by decide
+    have n2 : name .zstd ≠ name .gzip := by decide
+    have n3 : name .zstd ≠ name .deflate := by decide
+    unfold recv
+    simp only [nameOf_eq, beq_iff_eq, List.cons.injEq, List.contains_eq_mem, decide_eq_true_eq]
+    constructor
+    · intro h
+      refine ⟨v, rest, ⟨rfl, rfl⟩, ?_⟩
+      by_cases c0 : v = identity
+      · simp [c0] at h
+      · refine ⟨c0, ?_⟩
+        intro e he hv
+        subst hv
+        cases e <;> simp_all
+    · rintro ⟨v', rest', ⟨rfl, rfl⟩, c0, hall⟩
+      simp only [c0, if_false]
+      by_cases c1 : v = name .gzip
+      · have := hall .gzip; simp_all
+      · by_cases c2 : v = name .deflate
+        · have := hall .deflate; simp_all
+        · by_cases c3 : v = name .zstd
+          · have := hall .zstd; simp_all
+          · simp [c1, c2, c3]
+
+/-- What `acceptListOk` says: one value, and an encoding's name is among its elements iff the
+encoding is enabled (every other element is `identity`). -/
+theorem C05_accept_list_meaning (enabled : List Enc) (vals : List Bytes)
+    (h : acceptListOk enabled vals = true) :
+    ∃ v, vals = [v] ∧ (∀ e, offersB v e = true ↔ enabled.contains e = true) ∧
+      ∀ t ∈ tokens v, t = identity ∨ ∃ e, t = name e := by
+  unfold acceptListOk at h
+  split at h
+  · rename_i v
+    simp only [Bool.and_eq_true, List.all_eq_true] at h
+    obtain ⟨h1, h2⟩ := h
+    refine ⟨v, rfl, ?_, ?_⟩
+    · intro e
+      constructor
+      · intro ho
+        have hm : name e ∈ tokens v := by simpa [offersB] using ho
+        have := h1 _ hm
+        have hn : nameOf? (name e) = some e := by rw [← asStr_eq_name]; exact nameOf_asStr e
+        have hi : (name e == identity) = false := by cases e <;> decide
+        simpa [hn, hi] using this
+      · intro he
+        have := h2 e (by simpa using he)
+        simpa [offersB] using this
+    · intro t ht
+      have := h1 t ht
+      simp only [Bool.or_eq_true, beq_iff_eq] at this
+      rcases this with h | h
+      · exact Or.inl h
+      · right
+        rw [nameOf_eq] at h
+        by_cases c1 : t = name .gzip
+        · exact ⟨_, c1⟩
+        · by_cases c2 : t = name .deflate
+          · exact ⟨_, c2⟩
+          · by_cases c3 : t = name .zstd
+            · exact ⟨_, c3⟩
+            · simp [c1, c2, c3] at h
+  · cases h
+
+/-- One frame header: a message flagged as compressed is decoded with the negotiated encoding
+and with nothing else; with no negotiated encoding it is the INTERNAL "compressed-flag but no
+grpc-encoding" error; flag 0 is never decompressed; any other flag is an error. -/
+theorem C05_flag_header (neg : Option Enc) (flag : UInt8) :
+    (decodeFlag neg flag = .error .noEncoding ↔ flag = 1 ∧ neg = none) ∧
+    (∀ c, decodeFlag neg flag = .ok c ↔ (flag = 0 ∧ c = none) ∨ (flag = 1 ∧ c = neg ∧ neg ≠ none)) := by
+  unfold decodeFlag
+  by_cases h0 : flag = 0
+  · subst h0; simp [eq_comm]
+  · by_cases h1 : flag = 1
+    · subst h1; cases neg <;> simp [eq_comm]
+    · simp [h0, h1]
+
+/-- A message flagged as compressed when no encoding was negotiated is rejected with INTERNAL:
+the call fails with status 13 (class "compressed-flag but no grpc-encoding"), that message and
+all later ones never reach the handler, nothing is sent back — at any position in the request
+stream, for all shapes. -/
+theorem C05_flag_without_encoding (direct : Bool) (acc snd : List Call) (req : SrvReq)
+    (h : Handler) :
+    srvFlag (enabledAfter acc) req
+      (serve (configure direct acc) (configure direct snd) req h) = true :=
+  serve_flag _ _ _ (configure_agree direct acc) req h
+
+/-- Conversely an acceptable request that is well-formed for the negotiated encoding reaches the
+handler, each message decoded with exactly that encoding (flag 1) or untouched (flag 0). -/
+theorem C05_acceptable_request_delivered (direct : Bool) (acc snd : List Call) (req : SrvReq)
+    (h : Handler) :
+    srvDeliver (enabledAfter acc) req
+      (serve (configure direct acc) (configure direct snd) req h) = true :=
+  serve_deliver _ _ _ (configure_agree direct acc) req h
+
+/-! ### sentence 3: the client -/
+
+/-- the `send_compressed` calls of a client: the last one wins -/
+def sendOf (cs : List Enc) : Option Enc := cs.getLast?
+
+/-- A client compresses every request message with exactly the encoding it was told to send and
+says so in `grpc-encoding`; told nothing, it sends identity and no `grpc-encoding`.  (Guard: the
+caller's own metadata carries no `grpc-encoding`.) -/
+theorem C05_client_sends_configured (send : List Enc) (acc : List Call) (shape : Shape)
+    (umdAcc : List Bytes) (k : Nat) (resp : CliResp) :
+    cliSend (sendOf send)
+      (call { send := sendOf send, accept := configure true acc } shape [] umdAcc k resp) = true :=
+  call_send { send := sendOf send, accept := configure true acc } shape umdAcc k resp
+
+/-- A client advertises exactly the encodings it accepts: no header if it accepts none,
+otherwise one value listing precisely them (plus `identity`).  (Guard: the caller's own metadata
+carries no `grpc-accept-encoding`.) -/
+theorem C05_client_advertises_accepted (send : Option Enc) (acc : List Call) (shape : Shape)
+    (umdEnc : List Bytes) (k : Nat) (resp : CliResp) :
+    cliAdvertise (enabledAfter acc)
+      (call { send, accept := configure true acc } shape umdEnc [] k resp) = true :=
+  call_advertise _ _ (configure_agree true acc) shape umdEnc k resp
+
+/-- A response whose `grpc-encoding` is not enabled for receiving is refused with
+UNIMPLEMENTED; no other response is. -/
+theorem C05_client_refuses_unsupported (send : Option Enc) (acc : List Call) (shape : Shape)
+    (umdEnc umdAcc : List Bytes) (k : Nat) (resp : CliResp) :
+    cliRefuse (enabledAfter acc) resp
+      (call { send, accept := configure true acc } shape umdEnc umdAcc k resp) = true :=
+  call_refuse _ _ (configure_agree true acc) shape umdEnc umdAcc k resp
+
+/-- Client side of "flag without negotiated encoding ⇒ INTERNAL". -/
+theorem C05_client_flag_without_encoding (send : Option Enc) (acc : List Call) (shape : Shape)
+    (umdEnc umdAcc : List Bytes) (k : Nat) (resp : CliResp) :
+    cliFlag (enabledAfter acc) resp
+      (call { send, accept := configure true acc } shape umdEnc umdAcc k resp) = true :=
+  call_flag _ _ (configure_agree true acc) shape umdEnc umdAcc k resp
+
+/-- An acceptable, well-formed, successful response is delivered decoded by exactly the
+negotiated encoding. -/
+theorem C05_client_response_delivered (send : Option Enc) (acc : List Call) (shape : Shape)
+    (umdEnc umdAcc : List Bytes) (k : Nat) (resp : CliResp) :
+    cliDeliver (enabledAfter acc) shape resp
+      (call { send, accept := configure true acc } shape umdEnc umdAcc k resp) = true :=
+  call_deliver _ _ (configure_agree true acc) shape umdEnc umdAcc k resp
+
+/-! ### non-vacuity -/
+
+-- "deflate ,\tgzip" offers gzip (declaratively), "gzipp, GZIP" does not
+example : Offers [100, 101, 102, 108, 97, 116, 101, 32, 44, 9, 103, 122, 105, 112] .gzip :=
+  (offersB_iff _ _).mp (by decide)
+example : ¬ Offers [103, 122, 105, 112, 112, 44, 32, 71, 90, 73, 80] .gzip :=
+  fun h => absurd ((offersB_iff _ _).mpr h) (by decide)
+-- the §5.4 witness on the fixed model: send = {gzip}, "zstd,gzip" ⇒ gzip
+example : fromAcceptEncodingHeader [zstdName ++ [44] ++ gzipName] (configure true [.en .gzip]) = some .gzip := by
+  decide
+-- call sequences with repeats and pops satisfy the hypotheses of the configuration theorem
+example : enabledAfter [.en .zstd, .en .gzip, .en .zstd, .pop, .en .deflate] = [.zstd, .deflate] := by decide
+example : recv [.gzip] [name .deflate] = .refuse ∧ recv [.gzip] [identity] = .identity := by decide
+-- a request refused: accept = {zstd, gzip}, `grpc-encoding: deflate`
+example : (serve (configure false [.en .zstd, .en .gzip]) (configure false []) ⟨.unary, [deflateName], [], [⟨1, .z .deflate⟩]⟩
+    (.reply 1 false [])).acc = [gzipName ++ [44] ++ zstdName ++ [44] ++ identityName] := by decide
+-- a flagged message without negotiated encoding, second in a client stream
+example : (serve (configure true []) (configure true []) ⟨.bidi, [], [], [⟨0, .raw⟩, ⟨1, .z .gzip⟩]⟩
+    (.reply 2 false [])).saw = [.ok .raw, .err 13 .flagNoEnc] := by decide
 
 end C05
